@@ -12,6 +12,11 @@
 //        both expressions are checked, then the public static TypeChecker::areEquivalent is called on their types and on
 //        the same types wrapped in REF / CONSTANT on either side:
 //        e=<E(A,B)><E(B,A)><E(&A,B)><E(A,&B)><E(const A,B)><E(A,const B)><E(&A,&B)><E(B,&A)> a=<type> b=<type>
+//   Y - <query text>
+//        the text is parsed and checked as a query of the document by a fresh TigaPropertyBuilder (parseProperty ->
+//        TypeChecker::visitProperty -> typeProperty), the way a verifier does; queries have acceptance rules of their own
+//        (nesting, observations of `{..} control:`) that no expression of a model reaches:
+//        q ok=<0|1> nprop=<n> nerr=<n> exc=<what of the exception, if any> msgs=<msg>|<msg>
 // Types are printed with vh::tsexp (S-expression, kind names from the generated kinds.inc).
 #include <algorithm>
 #include <cassert>
@@ -187,6 +192,21 @@ int main(int argc, char** argv)
             E(rA, rB);
             E(B, rA);
             std::cout << "e=" << bits << " a=" << tsexp(A) << " b=" << tsexp(B) << "\n";
+        } else if (op == "Y") {
+            doc->clear_errors();
+            doc->clear_warnings();
+            TigaPropertyBuilder pb(*doc);
+            std::string exc, msgs;
+            try {
+                parseProperty(rest.c_str(), &pb);
+            } catch (std::exception& ex) {
+                exc = ex.what();
+            }
+            for (auto& e : doc->get_errors()) msgs += e.msg + "|";
+            size_t nprop = pb.getProperties().size();
+            bool ok = exc.empty() && !doc->has_errors() && nprop > 0;
+            std::cout << "q ok=" << (ok ? 1 : 0) << " nprop=" << nprop << " nerr=" << doc->get_errors().size() << " exc=" << quote(exc)
+                      << " msgs=" << msgs << "\n";
         } else {
             std::cout << "bad-op\n";
         }
